@@ -79,32 +79,53 @@ pub mod collections {
             }
         }
 
+        /// Index-based iterators: the loop condition is an integer comparison that CBMC's symbolic
+        /// execution decides concretely whenever the entry count is concrete (a pointer-pair slice iterator
+        /// is unwound to the bound instead, which made `for (k, v) in map` loops dominate every query).
         pub struct Iter<'a, K, V> {
-            inner: core::slice::Iter<'a, Option<(K, V)>>,
+            a: &'a [Option<(K, V)>; CAP],
+            i: usize,
+            n: usize,
         }
         impl<'a, K, V> Iterator for Iter<'a, K, V> {
             type Item = (&'a K, &'a V);
             fn next(&mut self) -> Option<Self::Item> {
-                match self.inner.next() {
-                    Some(Some(kv)) => Some((&kv.0, &kv.1)),
-                    _ => None,
+                if self.i < self.n && self.i < CAP {
+                    let cell = &self.a[self.i];
+                    self.i += 1;
+                    match cell {
+                        Some(kv) => Some((&kv.0, &kv.1)),
+                        None => None,
+                    }
+                } else {
+                    None
                 }
             }
             fn size_hint(&self) -> (usize, Option<usize>) {
-                self.inner.size_hint()
+                (self.n - self.i, Some(self.n - self.i))
             }
         }
         impl<K, V> ExactSizeIterator for Iter<'_, K, V> {}
 
         pub struct IterMut<'a, K, V> {
-            inner: core::slice::IterMut<'a, Option<(K, V)>>,
+            p: *mut Option<(K, V)>,
+            i: usize,
+            n: usize,
+            _m: core::marker::PhantomData<&'a mut (K, V)>,
         }
         impl<'a, K, V> Iterator for IterMut<'a, K, V> {
             type Item = (&'a K, &'a mut V);
             fn next(&mut self) -> Option<Self::Item> {
-                match self.inner.next() {
-                    Some(Some(kv)) => Some((&kv.0, &mut kv.1)),
-                    _ => None,
+                if self.i < self.n && self.i < CAP {
+                    // each index is handed out once, so the &mut references do not alias
+                    let cell: &'a mut Option<(K, V)> = unsafe { &mut *self.p.add(self.i) };
+                    self.i += 1;
+                    match cell {
+                        Some(kv) => Some((&kv.0, &mut kv.1)),
+                        None => None,
+                    }
+                } else {
+                    None
                 }
             }
         }
@@ -180,11 +201,11 @@ pub mod collections {
                 self.n = 0;
             }
             pub fn iter(&self) -> Iter<'_, K, V> {
-                Iter { inner: self.a[..self.n].iter() }
+                Iter { a: &self.a, i: 0, n: self.n }
             }
             pub fn iter_mut(&mut self) -> IterMut<'_, K, V> {
                 let n = self.n;
-                IterMut { inner: self.a[..n].iter_mut() }
+                IterMut { p: self.a.as_mut_ptr(), i: 0, n, _m: core::marker::PhantomData }
             }
             fn slot<'a>(&'a mut self, i: usize) -> &'a mut V {
                 let mut j = 0;
@@ -377,18 +398,33 @@ pub mod collections {
             }
         }
         pub struct Iter<'a, T> {
-            inner: core::slice::Iter<'a, T>,
+            v: &'a Vec<T>,
+            i: usize,
         }
         impl<'a, T> Iterator for Iter<'a, T> {
             type Item = &'a T;
             fn next(&mut self) -> Option<&'a T> {
-                self.inner.next()
+                if self.i < self.v.len() {
+                    let r = &self.v[self.i];
+                    self.i += 1;
+                    Some(r)
+                } else {
+                    None
+                }
             }
             fn size_hint(&self) -> (usize, Option<usize>) {
-                self.inner.size_hint()
+                let r = self.v.len() - self.i;
+                (r, Some(r))
             }
             fn nth(&mut self, n: usize) -> Option<&'a T> {
-                self.inner.nth(n)
+                let j = self.i + n;
+                if j < self.v.len() {
+                    self.i = j + 1;
+                    Some(&self.v[j])
+                } else {
+                    self.i = self.v.len();
+                    None
+                }
             }
         }
         impl<T> ExactSizeIterator for Iter<'_, T> {}
@@ -433,7 +469,7 @@ pub mod collections {
                 self.v.clear()
             }
             pub fn iter(&self) -> Iter<'_, T> {
-                Iter { inner: self.v.iter() }
+                Iter { v: &self.v, i: 0 }
             }
             pub fn iter_mut(&mut self) -> IterMut<'_, T> {
                 IterMut { inner: self.v.iter_mut() }
